@@ -435,25 +435,83 @@ def r5(p, rep):
                 n = arg.args[1].value if len(arg.args) > 1 and isinstance(arg.args[1], ast.Constant) else None
                 ok = n == NUMPY_POSITIONAL_OUT[name]
             rep.add("C09.R5", key, r.site, ok, f"np.{name} wrapped by {wrapped}: {ARITY_WRAPPERS[wrapped]}" if ok else f"np.{name} has {NUMPY_POSITIONAL_OUT[name]} inputs but _fixed_arity allows {n}")
-    # the wrapper itself: the wrapped op is only called when exactly `n` operands were given, otherwise it raises
+    # the wrapper itself: the wrapped op is only called when exactly `n` operands were given, otherwise it raises.
+    # The wrapper may be written directly in _fixed_arity or in a shared helper it delegates to
+    # (`return _with_arity(op, n, n)`); the path condition of the call `op(*args)` is evaluated over small operand counts.
     outer = p.func("_fixed_arity", "adapter._util")
-    inners = [g for g in p.funcs.values() if g.parent is outer]
+    opname, nname = outer.params[0], outer.params[1]
+    mapping = {}  # parameter of the function that holds the wrapper -> expression over _fixed_arity's parameters
+    host = outer
+    for _ in range(3):
+        inners = [g for g in p.funcs.values() if g.parent is host]
+        if inners:
+            break
+        rets = [x for x in walk_no_nested(host.node) if isinstance(x, ast.Return) and isinstance(x.value, ast.Call)]
+        r = resolve_callee(p, rets[0].value, host.module) if len(rets) == 1 else None
+        if not (r and r[0] == "func"):
+            break
+        call, h = rets[0].value, r[1]
+        new_map = {}
+        for i_, a in enumerate(call.args):
+            if i_ < len(h.params):
+                new_map[h.params[i_]] = a
+        for k in call.keywords:
+            if k.arg:
+                new_map[k.arg] = k.value
+        defaults = dict(zip(h.params[len(h.params) - len(h.node.args.defaults) :], h.node.args.defaults))
+        for q, d in defaults.items():
+            new_map.setdefault(q, d)
+        mapping, host = new_map, h
+    inners = [g for g in p.funcs.values() if g.parent is host]
     if not inners:
-        raise AnalysisError("unrecognised idiom: _fixed_arity defines no wrapper function")
+        raise AnalysisError("unrecognised idiom: _fixed_arity defines no wrapper function (directly or through the helper it returns)")
     from sa.cfg import CFG
 
-    opname, nname = outer.params[0], outer.params[1]
+    def ev(e, env):
+        """value of a pure test over {operand count, n}; raises KeyError / TypeError when not evaluable"""
+        if isinstance(e, ast.Constant):
+            return e.value
+        if isinstance(e, ast.Name):
+            if e.id in mapping and host is not outer:
+                return ev(mapping[e.id], env)
+            return env[e.id]
+        if isinstance(e, ast.Call) and isinstance(e.func, ast.Name) and e.func.id == "len" and len(e.args) == 1 and isinstance(e.args[0], ast.Name):
+            return env["len:" + e.args[0].id]
+        if isinstance(e, ast.UnaryOp) and isinstance(e.op, ast.Not):
+            return not ev(e.operand, env)
+        if isinstance(e, ast.BoolOp):
+            vals = (ev(v, env) for v in e.values)
+            return all(vals) if isinstance(e.op, ast.And) else any(vals)
+        if isinstance(e, ast.Compare) and len(e.ops) == 1:
+            a, b, op = ev(e.left, env), ev(e.comparators[0], env), e.ops[0]
+            import operator as O
+
+            table = {ast.Eq: O.eq, ast.NotEq: O.ne, ast.Lt: O.lt, ast.LtE: O.le, ast.Gt: O.gt, ast.GtE: O.ge, ast.Is: O.is_, ast.IsNot: O.is_not}
+            return table[type(op)](a, b)
+        raise KeyError(norm(e))
+
     for g in inners:
         star = g.node.args.vararg.arg if g.node.args.vararg else None
-        calls = [c for c in walk_no_nested(g.node) if isinstance(c, ast.Call) and isinstance(c.func, ast.Name) and c.func.id == opname]
+        callee = next((k for k, v in mapping.items() if isinstance(v, ast.Name) and v.id == opname), opname) if host is not outer else opname
+        calls = [c for c in walk_no_nested(g.node) if isinstance(c, ast.Call) and isinstance(c.func, ast.Name) and c.func.id == callee]
         cfg = CFG(g.node)
         ok = bool(calls) and star is not None
+        why = ""
         for c in calls:
-            facts = [(norm(t), pol) for t, pol in cfg.guards_of_ast(c)]
-            eq = (f"len({star}) == {nname}", True) in facts or (f"{nname} == len({star})", True) in facts or (f"len({star}) != {nname}", False) in facts or (f"{nname} != len({star})", False) in facts
-            ok = ok and eq
+            facts = cfg.guards_of_ast(c)
+            try:
+                for n_ in (1, 2, 3):
+                    for k_ in range(0, 6):
+                        env = {nname: n_, "len:" + star: k_}
+                        reached = all(bool(ev(t, env)) == pol for t, pol in facts)
+                        if reached != (k_ == n_):
+                            ok = False
+                            why = f"with n = {n_} the wrapped operation is {'reached' if reached else 'not reached'} for {k_} operand(s)"
+            except (KeyError, TypeError) as e:
+                ok = False
+                why = f"the path condition of the call is not a pure test over the operand count ({e})"
         raises = [r for r in walk_no_nested(g.node) if isinstance(r, ast.Raise)]
-        rep.add("C09.R5", f"{outer.qualname}:guard", g.loc, ok and bool(raises), f"op(*{star}) is only reached when len({star}) == {nname}; otherwise raises" if ok and raises else "the arity wrapper forwards operand lists of the wrong length")
+        rep.add("C09.R5", f"{outer.qualname}:guard", g.loc, ok and bool(raises), f"op(*{star}) is only reached when len({star}) == {nname}; otherwise raises" if ok and raises else f"the arity wrapper forwards operand lists of the wrong length ({why})")
     rep.assume("numpy ufuncs accept `out` as the positional argument after their nin inputs (NUMPY_POSITIONAL_OUT table)")
 
 
